@@ -10,6 +10,7 @@ import (
 	"time"
 
 	ct "github.com/google/certificate-transparency-go"
+	"github.com/google/certificate-transparency-go/trillian/ctfe"
 	"pgregory.net/rapid"
 
 	"verif/internal/ctfex"
@@ -46,7 +47,7 @@ func checkConc(t *testing.T, c ConcCase) (v harness.Verdict) {
 	be := reflog.New(6962, 1)
 	// The system clock is used here: the front end derives the deadline of every backend / storage call from
 	// its clock, and a storage fake that honours contexts would see an expired one under a clock set in the past.
-	o := ctfex.Opts{LogKey: keys.Pick("p256", 1), Roots: world.Roots(), Backend: be}
+	o := ctfex.Opts{LogKey: keys.Pick("p256", 1), Roots: world.Roots(), Backend: be, Inst: func(io *ctfe.InstanceOptions) { io.Deadline = time.Hour }}
 	var store *memstore.Store
 	if c.Indirect {
 		store = memstore.New()
